@@ -713,6 +713,7 @@ SoPlexBase<R>::SoPlexBase(const SoPlexBase<R>& rhs)
    spx_alloc(_currentSettings);
    _currentSettings = new(_currentSettings) Settings();
 
+   _realLP = nullptr;
    _rationalLP = nullptr;
 
    // call assignment operator
@@ -1536,6 +1537,13 @@ SoPlexBase<R>& SoPlexBase<R>::operator=(const SoPlexBase<R>& rhs)
       setIntParam(SoPlexBase<R>::SCALER, intParam(SoPlexBase<R>::SCALER), true);
       setIntParam(SoPlexBase<R>::STARTER, intParam(SoPlexBase<R>::STARTER), true);
 
+      // free the old real LP if different from the LP in the solver
+      if(_realLP != nullptr && _realLP != &_solver)
+      {
+         _realLP->~SPxLPBase<R>();
+         spx_free(_realLP);
+      }
+
       // copy real LP if different from the LP in the solver
       if(rhs._realLP != &(rhs._solver))
       {
@@ -1562,6 +1570,13 @@ SoPlexBase<R>& SoPlexBase<R>::operator=(const SoPlexBase<R>& rhs)
       else
       {
          assert(intParam(SoPlexBase<R>::SYNCMODE) != SYNCMODE_ONLYREAL);
+
+         if(_rationalLP != nullptr)
+         {
+            _rationalLP->~SPxLPRational();
+            spx_free(_rationalLP);
+         }
+
          _rationalLP = nullptr;
          spx_alloc(_rationalLP);
          _rationalLP = new(_rationalLP) SPxLPRational(*rhs._rationalLP);
